@@ -230,3 +230,27 @@ func init() {
 		Rules:       []*Rule{ruleCrypto},
 	})
 }
+
+func init() {
+	Register(&Property{
+		ID: "C07",
+		Explanation: "Decides the structural clauses of canonical formatting: indentation changes are balanced on all paths and written as four spaces " +
+			"per level, comments are written through TrimSpace, number literals are printed in the only notation the lexer accepts (R-INDENTPAIR); " +
+			"`--check` compares the input with the formatter's own output and fails exactly on the unequal edge, and an unformatted file ends a " +
+			"multi-file run with a non-zero status (R-ATOMICWRITE W5–W7).",
+		NotDecided:  "Idempotence, blank-line policy, trailing whitespace in general, the final newline — properties of the produced text.",
+		Assumptions: []string{},
+		Rules:       []*Rule{ruleIndentPair, ruleAtomicWrite},
+	})
+	Register(&Property{
+		ID: "C15",
+		Explanation: "Decides the event mechanism structurally: a handler body runs in a fresh function scope over the global scope, pushed before the " +
+			"first parameter is bound and restored on every exit (R-SCOPEPAIR/evaluator); payload slot i is bound to declared parameter i behind " +
+			"the length guard; handler parameters are compared with the built-in signature by exact type equality, in number and type, and a " +
+			"handler is registered only for a known event without a handler; the browser queue is first-in first-out (R-EVENTS); errors of a " +
+			"handler run are returned (R-YIELD error clause).",
+		NotDecided:  "Cumulative effects of event sequences (history-level).",
+		Assumptions: []string{},
+		Rules:       []*Rule{ruleEvents, ruleScopePairEval, ruleYield},
+	})
+}
